@@ -18,6 +18,9 @@ use crate::{
 pub const ALPN: &[u8] = b"/iroh-sync/1";
 
 mod codec;
+#[cfg(feature = "verif-hooks")]
+#[allow(missing_docs)]
+pub use codec::verif_net;
 
 /// Connect to a peer and sync a replica
 pub async fn connect_and_sync(
